@@ -413,7 +413,6 @@ func TestC11(t *testing.T) {
 	})
 }
 
-
 // slowWriter delays every write of a response.
 type slowWriter struct {
 	*httptest.ResponseRecorder
